@@ -1146,23 +1146,34 @@ def hoare_while(inv, name="loop", keep=None, ghost_init=None, ghost_step=None, e
     return while_loop
 
 
-def hoare_scan(inv, name="scan", xs_hyp=None):
-    """Replacement for ``scan(f, init, xs)``: the body is executed once on an arbitrary carry with Inv
-    and an arbitrary element x (optionally constrained by ``xs_hyp(x_prev, x)``); returns an arbitrary
-    carry with Inv and per-step outputs of the one symbolic step stacked ``len(xs)`` times (so shapes
-    are right; contracts about outputs must be stated through the step property, not the stacked value).
+def hoare_scan(inv, name="scan", ghost_init=None, ghost_step=None, x_hyp=None, step_post=None, on_step=None):
+    """Replacement for ``scan(f, init, xs)`` (induction over the sequence): Inv(init, init, ghost0); for
+    an arbitrary carry/ghost with Inv and an arbitrary element x with ``x_hyp(ghost, x)``: one symbolic
+    execution of the *real* body, Inv of the new carry with the updated ghost and ``step_post`` (the
+    per-element postcondition, e.g. about the emitted output); returns an arbitrary carry with Inv and
+    the one symbolic output stacked len(xs) times (shapes only; contracts about outputs go in step_post).
     """
 
     def scan(step_func, init=None, xs=None, reverse=False, length=None, **kw):
-        assert_now(f"{name}.inv_init", inv(init, init, None))
+        g0 = ghost_init(init, xs) if ghost_init else None
+        assert_now(f"{name}.inv_init", inv(init, init, g0))
         c = havoc_like(init, f"{name}.carry")
+        g = havoc_like(g0, f"{name}.ghost") if g0 is not None else None
         x0 = jax.tree_util.tree_map(lambda a: a[0], xs)
         x = havoc_like(x0, f"{name}.x")
-        assume_now(f"{name}.hyp", inv(init, c, x))
+        assume_now(f"{name}.hyp", inv(init, c, g))
+        if x_hyp:
+            assume_now(f"{name}.hyp", x_hyp(g, x))
+        if on_step:
+            on_step(c, g, x)
         c1, y = step_func(c, x)
-        assert_now(f"{name}.inv_preserved", inv(init, c1, None, prev=(c, x, y)))
+        g1 = ghost_step(g, x) if ghost_step else None
+        assert_now(f"{name}.inv_preserved", inv(init, c1, g1))
+        if step_post:
+            assert_now(f"{name}.element", step_post(c, g, x, c1, y))
         c2 = havoc_like(init, f"{name}.final")
-        assume_now(f"{name}.exit", inv(init, c2, None))
+        g2 = havoc_like(g0, f"{name}.ghost_final") if g0 is not None else None
+        assume_now(f"{name}.exit", inv(init, c2, g2))
         n = jax.tree_util.tree_leaves(xs)[0].shape[0]
         ys = jax.tree_util.tree_map(lambda a: jnp.stack([a] * n), y)
         return c2, ys
